@@ -251,6 +251,33 @@ class World:
         return self.uf[name]
 
 
+def default_value(ex, dnode):
+    """The value of a parameter default.  Defaults are evaluated ONCE, when the function is
+    defined: a mutable default (list / dict / set display, a call) is an object that exists before
+    every call and is shared by all of them - it is never fresh."""
+    v = ex.ev(dnode, {})
+    if isinstance(dnode, (ast.List, ast.Dict, ast.Set, ast.Call, ast.ListComp, ast.DictComp, ast.SetComp)):
+        from .contracts import set_fresh
+        set_fresh(v, "no")
+        if isinstance(v, Obj):
+            v.fresh = "no"
+    return v
+
+
+# decorators that leave the decorated function's call behaviour as written in its body
+TRANSPARENT_DECORATORS = {"staticmethod", "classmethod", "property", "abstractmethod", "overload"}
+
+
+def check_decorators(fnode):
+    """A decorated function is whatever the decorator returns (a cache, a wrapper …), not its
+    body: the engine refuses it (`unsupported`) instead of silently verifying the body."""
+    for d in getattr(fnode, "decorator_list", []):
+        name = d.id if isinstance(d, ast.Name) else d.attr if isinstance(d, ast.Attribute) else None
+        if name not in TRANSPARENT_DECORATORS:
+            raise Unsupported(f"{fnode.name} is decorated (@{ast.unparse(d)}): its behaviour is the "
+                              "decorator's, not the body's")
+
+
 class Ctx:
     """State of one path."""
 
@@ -821,6 +848,19 @@ class Exec:
                     return Ref("class", f"opaque::{name}")
         if name in ("Any", "Optional", "Union", "List", "Dict", "Callable", "Type", "Iterable"):
             return Ref("typing", name)
+        if frm is not None:
+            # a literal constant imported from another module of the package: read from the
+            # CURRENT source of that module
+            from . import extract as _x
+            rel = frm.lstrip(".").replace(".", "/")
+            for cand in (f"func_adl/{rel}.py", f"{rel}.py", f"func_adl/ast/{rel}.py"):
+                try:
+                    _, tree_ = _x.module_ast(cand)
+                except _x.ExtractError:
+                    continue
+                consts = _x.module_constants(tree_)
+                if name in consts and isinstance(consts[name], (str, int, bool, type(None))):
+                    return self.lift_const(consts[name])
         raise Unsupported(f"unresolved name {name!r} (from {frm})")
 
     def lift_const(self, c):
@@ -1403,6 +1443,12 @@ class Exec:
                     raise Unsupported(f"library function {f.name} not modelled")
                 return h(self, args, kw, e, env)
             if f.kind == "func":
+                if f.name in self.contract.get("inline", []):
+                    # the caller's contract asks for the callee's BODY here (its contract is too
+                    # weak for what the caller must show, e.g. aliasing of a default argument)
+                    from . import extract as _x
+                    fnode_, _, _, _ = _x.find(self.w.contracts[f.name].get("source", f.name))
+                    return self.inline_call(fnode_, None, args, kw, line)
                 return self.apply_contract(f.name, None, args, kw, line)
             if f.kind == "inline":
                 return self.inline_call(f.extra, None, args, kw, line)
@@ -1480,6 +1526,7 @@ class Exec:
         raise Unsupported(f"method {ckey}.{name} has no contract/model")
 
     def inline_call(self, fnode, self_obj, args, kw, line):
+        check_decorators(fnode)
         depth = getattr(self, "_inline_depth", 0)
         if depth > 3:
             raise Unsupported(f"inlining depth exceeded at {fnode.name}")
@@ -1504,7 +1551,7 @@ class Exec:
             di = i - (len(allp) - nd)
             if di < 0:
                 raise Unsupported(f"inline call of {fnode.name}: missing argument {p}")
-            env[p] = self.ev(fnode.args.defaults[di], {})
+            env[p] = default_value(self, fnode.args.defaults[di])
         saved_fn = self.fn
         self._inline_depth = depth + 1
         self.fn = fnode
